@@ -691,6 +691,15 @@ func (fx *FnExec) instr(in ssa.Instruction) error {
 		return nil
 	case *ssa.Alloc:
 		et := elemOf(x.Type())
+		if n, ok := byteArrayBuffer(x); ok {
+			// make([]byte, <const>) is compiled to new [N]byte + slice: a local byte buffer
+			name := "L.buf." + x.Name()
+			fx.e.heapSort[name] = "Str"
+			fx.localNames[name] = true
+			fx.heapSet(&fx.cur, name, "Str", app("str_zeros", intLit(n)))
+			fx.bufs[x] = &bufRef{name: name, off: "0", len: intLit(n)}
+			return nil
+		}
 		if arr, ok := arrayLocal(x); ok {
 			base := fx.localBase(x)
 			for k := int64(0); k < arr.Len(); k++ {
